@@ -503,7 +503,7 @@ def analyse(repo):
                 for kind, ins, why, sft in found:
                     sites.setdefault((kind, ins.pc), (kind, ins, why, sft))
                 tainted_branches = [v for v in sites.values() if v[0] == "branch"]
-                allowed = 1 if fn.endswith("openAsm") else 0
+                allowed = 1 if "open" in fn.split(".")[-1].lower() else 0  # the tag verdict of the opening routine, whatever it is called
                 per_fn["%s:%s" % (arch, fn)]["tainted_branch_sites"] = len(tainted_branches)
                 if len(tainted_branches) <= allowed:
                     tainted_branches = []
